@@ -3,9 +3,12 @@
 # the outcome in seeded/<name>/result.json (and a summary table in seeded/RESULTS.md).
 set -u
 cd "$(dirname "$0")/.."
-echo "| seeded change | property | detected | first violated invariant |" > seeded/RESULTS.md
-echo "|---|---|---|---|" >> seeded/RESULTS.md
-for d in seeded/*/; do
+# optional argument: a glob over change names (e.g. '*-r3m*'); then RESULTS.md is left alone and results go to stdout
+PAT="${1:-*}"
+OUT=seeded/RESULTS.md; [ "$PAT" != "*" ] && OUT=/dev/null
+echo "| seeded change | property | detected | first violated invariant |" > $OUT
+echo "|---|---|---|---|" >> $OUT
+for d in seeded/$PAT/; do
   n=$(basename $d); id=${n%%-*}
   [ -f $d/patch.diff ] || continue
   if ! git -C /repo diff --quiet; then echo "/repo dirty" >&2; exit 2; fi
@@ -24,6 +27,6 @@ meta["origin"]="independent sub-agent (given only the property text and a scratc
 meta["confirmed"]="patch applies to /repo HEAD; with it `cargo test --offline -p elements` passes (85 unit + 14 doc tests); the demonstration (demo.rs, an integration test) fails with the patch and passes without (tools/confirm_seed.sh)" if os.path.exists(os.path.join(d,"demo.rs")) else "patch applies to /repo HEAD and compiles; existing suite not re-run for author-written patches"
 json.dump(meta,open(os.path.join(d,"meta.json"),"w"),indent=1)
 PY
-  echo "| $n | $id | $([ $rc -eq 1 ] && echo yes || echo NO) | $inv |" >> seeded/RESULTS.md
+  echo "| $n | $id | $([ $rc -eq 1 ] && echo yes || echo NO) | $inv |" >> $OUT
   echo "$n rc=$rc $inv"
 done
